@@ -53,13 +53,18 @@ CHECKS.update({
             'chains only; effective mode compared as bool(asynchronous); state after a refused constructor not inspected'),
 })
 
+CHECKS.update({
+    'C20': ('exploration', 'segments over map, starmap, accumulate (with/without start, returns_state), zip, buffer, partition, sliding_window, union are built twice from one spec - locally, and as scatter() ... gather() on the real streamz/dask.py classes over a fake cluster whose tasks, scatters and gathers finish at scenario-chosen virtual times (arbitrary completion orders respecting data dependencies); the sinks must observe equal sequences in equal order, the reference counters must end equal, and the completion callback is never early on the Dask twin', '4 (C20)',
+            'the cluster is a stub (FakeClient: submit/scatter/gather/loop); one awaiting producer; merges below buffering nodes (schedule dependent even locally) are not generated'),
+})
+
 NOT_APPLICABLE = {
     'C06': 'pure function of the batch sequence and the expression tree: no schedule, clock, I/O, peer or fault occurs in the statement or the anchored code, so simulation would only be input generation in disguise (DESIGN 5)',
     'C07': 'same as C06: window(value=T) reads timestamps from the data index, never a clock (DESIGN 5)',
     'C11': 'same as C06: the split into batches is an input, not a schedule (DESIGN 5)',
 }
 
-PENDING = {k: 'check under construction in this session (will be claimed once built)' for k in ['C12', 'C20']}
+PENDING = {k: 'check under construction in this session (will be claimed once built)' for k in ['C12']}
 
 
 def main():
